@@ -33,7 +33,7 @@ package raft
 //@ threadlocal g.ioOK AppendEntriesRequest AppendEntriesResponse RequestVoteRequest RequestVoteResponse
 //@ threadlocal InstallSnapshotRequest InstallSnapshotResponse
 //@ threadlocal Raft.id Raft.address Raft.logger Raft.transport Raft.log Raft.stateStorage Raft.snapshotStorage Raft.fsm
-//@ threadlocal Raft.options.electionTimeout Raft.options.heartbeatInterval Raft.options.leaseDuration
+//@ threadlocal Raft.options.*
 //@ threadlocal Operation.readIndex Operation.OperationType Operation.Bytes Operation.LogIndex Operation.LogTerm
 //@ threadlocal LogEntry.Index LogEntry.Term LogEntry.Data LogEntry.EntryType
 //@ threadlocal Raft.applyCond Raft.commitCond Raft.readOnlyCond Raft.electionCond Raft.snapshotCond
@@ -720,21 +720,27 @@ package raft
 //@ spec sameAbove(l, lo) = forall k int :: lo <= k && k < len(l.entries) ==> l.entries[k] == old(l.entries[k])
 
 //@ func persistentLog.Contains
+//@   flags lockheld
 //@   requires logRI(l)
 //@   ensures [spec] result == absContains(l, index)
 //@ func persistentLog.LastIndex
+//@   flags lockheld
 //@   requires logRI(l)
 //@   ensures [spec] result == absLast(l)
 //@ func persistentLog.NextIndex
+//@   flags lockheld
 //@   requires logRI(l)
 //@   ensures [spec] result == absLast(l) + 1
 //@ func persistentLog.LastTerm
+//@   flags lockheld
 //@   requires logRI(l)
 //@   ensures [spec] result == l.entries[len(l.entries)-1].Term
 //@ func persistentLog.Size
+//@   flags lockheld
 //@   requires logRI(l)
 //@   ensures [spec] result == absLast(l) - absFirst(l)
 //@ func persistentLog.GetEntry
+//@   flags lockheld
 //@   requires l.file != nil ==> logRI(l)
 //@   ensures [found] l.file != nil && absContains(l, index) ==> err == nil && result0 != nil && result0 == l.entries[index - absFirst(l)] && result0.Index == index
 //@   ensures [missing] l.file == nil || !absContains(l, index) ==> err != nil && result0 == nil
@@ -803,6 +809,7 @@ package raft
 //@   ensures tornTail ==> (err == nil || !iserr(err, io.EOF))
 
 //@ func persistentLog.AppendEntries
+//@   flags lockheld
 //@   requires l.file != nil ==> logRI(l)
 //@   requires forall j int :: 0 <= j && j < len(entries) ==> entries[j] != nil
 //@   requires l.file != nil ==> forall j int :: 0 <= j && j < len(entries) ==> entries[j].Index == absLast(l) + 1 + j
@@ -819,6 +826,7 @@ package raft
 //@   flags inline
 
 //@ func persistentLog.Truncate
+//@   flags lockheld
 //@   requires l.file != nil ==> logRI(l)
 //@   ensures [spec] err == nil ==> old(absContains(l, index)) && len(l.entries) == index - old(absFirst(l)) && forall k int :: 0 <= k && k < len(l.entries) ==> l.entries[k] == old(l.entries[k])
 //@   ensures [missing] old(l.file) != nil && !old(absContains(l, index)) ==> err != nil
@@ -829,6 +837,7 @@ package raft
 //@   at before-assign l.entries assert [sync-before-publish] fSynced[l.file] && fPos[l.file] == l.entries[index - absFirst(l)].Offset
 
 //@ func persistentLog.Compact
+//@   flags lockheld
 //@   requires l.file != nil ==> logRI(l)
 //@   ensures [spec] err == nil ==> old(absContains(l, index)) && len(l.entries) == old(len(l.entries)) - (index - old(absFirst(l))) && forall k int :: 0 <= k && k < len(l.entries) ==> l.entries[k] == old(l.entries[k + (index - absFirst(l))])
 //@   ensures [missing] old(l.file) != nil && !old(absContains(l, index)) ==> err != nil
@@ -839,6 +848,7 @@ package raft
 //@   loop range newEntries invariant [tmp] tmpFile != nil
 
 //@ func persistentLog.DiscardEntries
+//@   flags lockheld
 //@   ensures [spec] err == nil ==> len(l.entries) == 1 && l.entries[0] != nil && l.entries[0].Index == index && l.entries[0].Term == term && l.entries[0].Offset == 0
 //@   ensures [error-frame] err != nil ==> l.entries == old(l.entries)
 //@   ensures [ri] err == nil ==> logRI(l)
@@ -846,11 +856,13 @@ package raft
 //@   at call encodeLogEntry assert [offset-current] arg1.Offset == fPos[tmpFile] && arg0 == tmpFile
 
 //@ func persistentLog.rename
+//@   flags lockheld
 //@   requires tmpFile != nil && l.file != nil
 //@   ensures [reopened] err == nil ==> l.file != nil
 //@   at call os.Rename assert [synced-closed-before-rename] fSynced[tmpFile] && fClosed[tmpFile] && fClosed[l.file]
 
 //@ func persistentLog.Replay
+//@   flags lockheld
 //@   requires l.file != nil
 //@   ensures [torn-tail] tornTail && ioOK ==> err == nil
 
